@@ -21,6 +21,23 @@ import (
 
 var vCurEvent *Event
 
+// vPoolAliases: does any of the next few pooled events share its buffer with b?
+func vPoolAliases(b []byte) bool {
+	var got []*Event
+	bad := false
+	for i := 0; i < 6; i++ {
+		x := eventPool.Get().(*Event)
+		got = append(got, x)
+		if zzverif.SameBacking(x.buf, b) {
+			bad = true
+		}
+	}
+	for i := len(got) - 1; i >= 0; i-- {
+		eventPool.Put(got[i])
+	}
+	return bad
+}
+
 // vInEventPool: is e among the next few objects the event pool hands out? (They are put back.)
 func vInEventPool(e *Event) bool {
 	var got []*Event
@@ -78,6 +95,8 @@ func VH_C06_finalizers() {
 	case 5:
 		e.Errs("es", []error{errV, nil, vObjErr{}}).Err(vObjErr{})
 	}
+	// O4b: no object sitting in the pool may still reference the live event's buffer
+	zzverif.Assert(!vPoolAliases(e.buf), "O4: a pooled helper event keeps no reference to the buffer of an event that is still being built")
 	switch zzverif.Choice(4) {
 	case 0:
 		e.Msg("m")
@@ -221,4 +240,45 @@ func VH_C06_O7_syncwriter() {
 		zzverif.Assert(false, "O7: the mutex is released afterwards, also when the inner call panics")
 	}
 	zzverif.Reach("C06/O7")
+}
+
+// O7 under concurrency: while one goroutine is inside the wrapped writer, a second one calling
+// the SyncWriter must stay out until the first has left (decided by the scheduler under gosym;
+// natively the first call lingers long enough for the second to arrive).
+type vLingerWriter struct {
+	inside  int
+	overlap bool
+	calls   int
+}
+
+func (w *vLingerWriter) Write(p []byte) (int, error) {
+	w.inside++
+	w.calls++
+	if w.inside > 1 {
+		w.overlap = true
+	}
+	if w.calls == 1 {
+		zzverif.Quiesce() // everybody else runs as far as they can
+	}
+	if w.inside > 1 {
+		w.overlap = true
+	}
+	w.inside--
+	return len(p), nil
+}
+
+func VH_C06_O7_concurrent() {
+	lw := &vLingerWriter{}
+	sw := SyncWriter(lw)
+	l := New(sw)
+	done := make(chan struct{})
+	go func() {
+		l.Info().Msg("second")
+		close(done)
+	}()
+	l.Info().Msg("first")
+	<-done
+	zzverif.Assert(lw.calls == 2, "both events written")
+	zzverif.Assert(!lw.overlap, "O7: a writer wrapped in SyncWriter never sees two overlapping calls")
+	zzverif.Reach("C06/O7-concurrent")
 }
